@@ -20,6 +20,7 @@ RULE = (
     " Also: nodes with 300-1500 children; the style object's glyph attributes changed between two renderings."
     ' Also: overlapping iterations of one RenderTree object; range/deque values.'
     ' Also: maxlevels that are not whole numbers (literal reading).'
+    ' Rounds 11-14: line boundaries other than \\\\n (one reading), dotted attribute names, name orders, wide glyphs.'
 )
 ASSUMPTIONS = [
     "values have no trailing newline; the statement does not say which characters end a line, so for values containing other line boundaries (\\r, \\x0b, \\x0c, \\x1c-\\x1e, \\x85, \\u2028, \\u2029) the whole text must follow ONE reading - '\\n' only, or every str.splitlines boundary - for all values of the rendering",
